@@ -156,6 +156,16 @@ class Arr:
     def flatten(self):
         return Arr(self.v, self.kind)
 
+    def reshape(self, *shape):
+        # a 1-d model array reshaped is a view of the same data
+        return self
+
+    def ravel(self):
+        return self
+
+    def astype(self, dtype, copy=True):
+        return Arr(self.v, self.kind)
+
     def _reduce(self, fn, what):
         if not self.v:
             raise ModelFault(f"zero-size array to reduction operation "
@@ -1106,6 +1116,13 @@ def _np_array(a, dtype=None, copy=True):
     raise MiniError(f"np.array of {type(a).__name__} in the model")
 
 
+def _np_asarray(a, dtype=None, **k):
+    """np.asarray hands an array back as it is (no copy)"""
+    if isinstance(a, Arr):
+        return a
+    return _np_array(a, dtype=dtype)
+
+
 class Mat:
     """list of equally long columns (np.array(list of 1-d arrays))"""
 
@@ -1162,7 +1179,7 @@ def numpy_model(**extra):
     d = dict(isnan=_np_isnan, isinf=_np_isinf,
              isfinite=lambda a: ~(_np_isnan(a) | _np_isinf(a)),
              where=_np_where, all=_np_all, any=_np_any, array=_np_array,
-             asarray=_np_array, ones=_np_ones, zeros=_np_zeros, copy=_np_copy,
+             asarray=_np_asarray, ones=_np_ones, zeros=_np_zeros, copy=_np_copy,
              arange=_np_arange, min=lambda a: min(list(a)),
              max=lambda a: max(list(a)), flatnonzero=lambda a: _np_where(a)[0],
              count_nonzero=lambda a: sum(1 for x in a if x),
